@@ -1,6 +1,140 @@
-/- C09 — statements are being added as the proofs land (see DESIGN.md §6). -/
+/-
+  C09 — assignment depends only on the salt, the splitter values and the routed branch.
+  Statements; proofs in `Pyab/Proofs/RunGenerated.lean`.  The right-hand side `specRun`
+  is in `Pyab/Spec/Run.lean`.
+-/
+import Pyab.Spec.Run
+import Pyab.Proofs.RunGenerated
+import Pyab.Properties.C02
 namespace Pyab.Properties
+open Pyab Pyab.Spec Pyab.Proofs Pyab.Proofs.Run
 
-theorem C09_placeholder : True := trivial
+/-- a small experiment used by the examples: one splitter, one condition field -/
+def exC09 : Experiment :=
+  { id := "exp", salt := some "s", splitters := some ["uid"],
+    cond := .ifte (.cmp (.ident "country") .eq (.int 1))
+              (.ret [⟨.int 10, .i 1⟩, ⟨.int 20, .i 1⟩])
+              (.else_ (.ret [⟨.int 30, .i 1⟩])) }
+
+/-- **Factorisation.** Executing the generated function equals: check that the declared
+    fields are present; select a return statement by the reference routing; then choose from
+    its population by the key `salt ++ str(splitter values in sorted-name order)` (or hand
+    the weighted population to `random.choices` when no splitter is declared).  Nothing
+    else of the experiment or the call enters the result.  Hypothesis `hL`: the body can be
+    emitted at all (an int literal beyond the digit limit makes rendering raise; then both
+    sides are not comparable because `specRun` never renders a branch that is not taken). -/
+theorem C09_factorisation (cfg : RunCfg) (hc : CanonicalExpr cfg.toGenCfg) (hs : cfg.strReprSalt = true)
+    (e : Experiment) (env : Env) (L : List ILine) (hL : bodyLines cfg.toGenCfg 2 e.cond = .ok L) :
+    runGenerated cfg e env = specRun cfg e env :=
+  runGenerated_eq_specRun cfg hc (readBack_repr cfg.toGenCfg) hs e env L hL
+
+example (env : Env) : runGenerated Generated.runCfg exC09 env = specRun Generated.runCfg exC09 env :=
+  C09_factorisation Generated.runCfg C02_generator_canonical rfl exC09 env _ rfl
+
+/-- when the body cannot be emitted (an int literal beyond the digit limit in some branch,
+    finding family K2) the call — were the module to load at all — raises that error -/
+theorem C09_emit_failure (cfg : RunCfg) (hc : CanonicalExpr cfg.toGenCfg) (hs : cfg.strReprSalt = true)
+    (e : Experiment) (env : Env) (err : Err) (hL : bodyLines cfg.toGenCfg 2 e.cond = .error err)
+    (hp : ∀ n ∈ e.params cfg.toGenCfg, (env.get n).isSome = true) :
+    runGenerated cfg e env = .error err := by
+  rw [runGenerated_eq cfg hc (readBack_repr cfg.toGenCfg) hs, hL]
+  have h1 : (e.params cfg.toGenCfg).all (fun p => (env.get p).isSome) = true := List.all_eq_true.2 hp
+  simp [h1]
+
+example : runGenerated Generated.runCfg { exC09 with cond := .ret [⟨.ident "g", .i 1⟩] } [("uid", .none)]
+    = .error (.other "group-definition-not-literal") :=
+  C09_emit_failure Generated.runCfg C02_generator_canonical rfl _ _ _ rfl (by decide)
+
+/-- **Only the declared fields are read.**  Two calls whose keyword arguments agree on the
+    declared parameters, the condition fields and the splitters have the same result —
+    whatever else is passed (extra keyword arguments are ignored) and in whatever order
+    the arguments are given.  No hypothesis about the body being emitted is needed. -/
+theorem C09_only_declared_fields (cfg : RunCfg) (hc : CanonicalExpr cfg.toGenCfg) (hs : cfg.strReprSalt = true)
+    (e : Experiment) (env env' : Env)
+    (h : ∀ n ∈ e.params cfg.toGenCfg ++ e.condIds cfg.toGenCfg ++ e.localVars, env.get n = env'.get n) :
+    runGenerated cfg e env = runGenerated cfg e env' :=
+  runGenerated_agree cfg hc (readBack_repr cfg.toGenCfg) hs e env env' h
+
+/-- an extra argument and another argument order -/
+example : runGenerated Generated.runCfg exC09 [("uid", .str "u1"), ("country", .int 1)]
+    = runGenerated Generated.runCfg exC09 [("extra", .none), ("country", .int 1), ("uid", .str "u1")] :=
+  C09_only_declared_fields Generated.runCfg C02_generator_canonical rfl exC09 _ _ (by
+    intro n hn
+    have hl : exC09.params Generated.runCfg.toGenCfg ++ exC09.condIds Generated.runCfg.toGenCfg
+        ++ exC09.localVars = ["uid", "country", "country", "uid"] := by decide
+    rw [hl] at hn
+    simp only [List.mem_cons, List.not_mem_nil, or_false] at hn
+    rcases hn with rfl | rfl | rfl | rfl <;> rfl)
+
+/-- **The experiment's name is irrelevant** to the assignment. -/
+theorem C09_experiment_name_irrelevant (cfg : RunCfg) (e : Experiment) (n : String) (env : Env) :
+    runGenerated cfg { e with id := n } env = runGenerated cfg e env := rfl
+
+/-- **Missing field.** A declared parameter that is not passed is a missing-argument error,
+    before anything else is looked at. -/
+theorem C09_missing_field (cfg : RunCfg) (e : Experiment) (env : Env) (n : String)
+    (hn : n ∈ e.params cfg.toGenCfg) (hmiss : env.get n = none) :
+    runGenerated cfg e env = .error .missingField := by
+  unfold runGenerated
+  have : (e.params cfg.toGenCfg).all (fun p => (env.get p).isSome) = false := by
+    rw [List.all_eq_false]
+    exact ⟨n, hn, by simp [hmiss]⟩
+  simp only [this, Bool.not_false, if_true]
+  rfl
+
+example : runGenerated Generated.runCfg exC09 [("uid", .str "u1")] = .error .missingField :=
+  C09_missing_field Generated.runCfg exC09 _ "country" (by decide) rfl
+
+/-- every splitter and every condition field is a declared parameter, whether or not the
+    generator de-duplicates the signature -/
+theorem C09_splitters_and_condition_fields_are_params (cfg : GenCfg) (e : Experiment) :
+    ∀ n ∈ e.localVars ++ e.condIds cfg, n ∈ e.params cfg :=
+  fun n hn => mem_params_of_mem cfg e n hn
+
+/-- and nothing else is -/
+theorem C09_params_are_splitters_or_condition_fields (cfg : GenCfg) (e : Experiment) :
+    ∀ n ∈ e.params cfg, n ∈ e.localVars ++ e.condIds cfg :=
+  fun n hn => mem_of_mem_params cfg e n hn
+
+example : "country" ∈ exC09.localVars ++ exC09.condIds Generated.genCfg :=
+  C09_params_are_splitters_or_condition_fields _ exC09 "country" (by decide)
+
+example : "uid" ∈ exC09.params Generated.genCfg ∧ "country" ∈ exC09.params Generated.genCfg :=
+  ⟨C09_splitters_and_condition_fields_are_params _ exC09 "uid" (by decide),
+   C09_splitters_and_condition_fields_are_params _ exC09 "country" (by decide)⟩
+
+/-- **Same branch, same splitter values ⇒ same result.**  If the reference routing selects
+    the same return statement for two calls, the splitter values agree and no declared
+    field is missing in either, the two calls give the same result — the values of the
+    condition fields matter only through the branch they select. -/
+theorem C09_same_branch_same_result (cfg : RunCfg) (hc : CanonicalExpr cfg.toGenCfg) (hs : cfg.strReprSalt = true)
+    (e : Experiment) (env env' : Env) (L : List ILine) (hL : bodyLines cfg.toGenCfg 2 e.cond = .ok L)
+    (hroute : specRoute env e.cond = specRoute env' e.cond)
+    (hsplit : ∀ n ∈ e.localVars, env.get n = env'.get n)
+    (hp : ∀ n ∈ e.params cfg.toGenCfg, (env.get n).isSome = true)
+    (hp' : ∀ n ∈ e.params cfg.toGenCfg, (env'.get n).isSome = true) :
+    runGenerated cfg e env = runGenerated cfg e env' := by
+  rw [C09_factorisation cfg hc hs e env L hL, C09_factorisation cfg hc hs e env' L hL]
+  rw [specRun_eq, specRun_eq]
+  have h1 : (e.params cfg.toGenCfg).all (fun p => (env.get p).isSome) = true := List.all_eq_true.2 hp
+  have h2 : (e.params cfg.toGenCfg).all (fun p => (env'.get p).isSome) = true := List.all_eq_true.2 hp'
+  have hr : routed cfg.toGenCfg env e.cond = routed cfg.toGenCfg env' e.cond := by
+    unfold routed; rw [hroute]
+  have hcs : ∀ pop ws, choiceStage cfg e env pop ws = choiceStage cfg e env' pop ws :=
+    fun pop ws => choiceStage_agree cfg e env env' pop ws hsplit
+  simp only [h1, h2, hr, hcs]
+
+/-- country `1` and country `True` select the same branch -/
+example : runGenerated Generated.runCfg exC09 [("uid", .str "u1"), ("country", .int 1)]
+    = runGenerated Generated.runCfg exC09 [("uid", .str "u1"), ("country", .bool true)] :=
+  C09_same_branch_same_result Generated.runCfg C02_generator_canonical rfl exC09 _ _ _ rfl
+    rfl
+    (by
+      intro n hn
+      have hl : exC09.localVars = ["uid"] := by decide
+      rw [hl] at hn
+      simp only [List.mem_cons, List.not_mem_nil, or_false] at hn
+      subst hn; rfl)
+    (by decide) (by decide)
 
 end Pyab.Properties
